@@ -1086,3 +1086,311 @@ func TestVerifC10AttrRace(t *testing.T) {
 		line("rnd", k, r.Intn(k+1), conc)
 	}
 }
+
+// ---------------------------------------------------------------- argument memory shared between calls (leg `alias`)
+
+// Line: `alias <gen> <6 limits> | <op> | <op> … => <one 0|1 per op> ## <span idx> <immutable 0|1> <dump at OnEnd> ; …`
+// A sequential script over several spans of one provider and several CALLER-OWNED attribute slices with spare capacity:
+//   mk <kvs> <spare>            buf := append(make([]KeyValue, 0, n+spare), kvs...)   (buffer index = number of mk so far)
+//   wr <b> <i> <kv>             buf_b[:cap(buf_b)][i] = kv   (the caller reuses / overwrites its slice after a call returned)
+//   sp <hex name> <bufs a.b|-> <links sc@b+sc@-|->   Start(name, WithLinks(Link{sc, buf_b}…), WithAttributes(buf_a...), …)
+//   sa <s> <b> · ev <s> <hex name> <bufs> · re <s> <hex msg|-> <bufs> · ln <s> <sc> <b|-> · st <s> <code> <hex> · nm <s> <hex>
+//   end <s>
+// After EVERY op every snapshot exported so far is re-read and compared with what OnEnd saw (the per-op flag).
+type c10AliasProc struct {
+	idx   map[trace.SpanID]int
+	spans []ReadOnlySpan
+	which []int
+	dumps []string
+}
+
+func (p *c10AliasProc) OnStart(context.Context, ReadWriteSpan) {}
+func (p *c10AliasProc) OnEnd(s ReadOnlySpan) {
+	p.spans = append(p.spans, s)
+	p.which = append(p.which, p.idx[s.SpanContext().SpanID()])
+	p.dumps = append(p.dumps, vC04Dump(s))
+}
+func (p *c10AliasProc) Shutdown(context.Context) error   { return nil }
+func (p *c10AliasProc) ForceFlush(context.Context) error { return nil }
+
+func c10AliasIdx(tok string) []int {
+	if tok == "-" {
+		return nil
+	}
+	var out []int
+	for _, t := range strings.Split(tok, ".") {
+		n, _ := strconv.Atoi(t)
+		out = append(out, n)
+	}
+	return out
+}
+
+func c10RunAlias(lim [6]int, ops [][]string) string {
+	proc := &c10AliasProc{idx: map[trace.SpanID]int{}}
+	tp := NewTracerProvider(WithRawSpanLimits(SpanLimits{
+		AttributeCountLimit: lim[0], AttributeValueLengthLimit: lim[1], EventCountLimit: lim[2],
+		LinkCountLimit: lim[3], AttributePerEventCountLimit: lim[4], AttributePerLinkCountLimit: lim[5],
+	}), WithSampler(AlwaysSample()), WithSpanProcessor(proc))
+	defer func() { _ = tp.Shutdown(context.Background()) }()
+	tr := tp.Tracer("verif")
+	var bufs [][]attribute.KeyValue
+	var spans []trace.Span
+	buf := func(i int) []attribute.KeyValue {
+		if i < 0 || i >= len(bufs) {
+			return nil
+		}
+		return bufs[i]
+	}
+	span := func(tok string) trace.Span {
+		i, _ := strconv.Atoi(tok)
+		if i < 0 || i >= len(spans) {
+			return nil
+		}
+		return spans[i]
+	}
+	evOpts := func(tok string) []trace.EventOption {
+		var o []trace.EventOption
+		for _, b := range c10AliasIdx(tok) {
+			o = append(o, trace.WithAttributes(buf(b)...))
+		}
+		return o
+	}
+	flags := make([]byte, 0, len(ops))
+	for _, op := range ops {
+		switch op[0] {
+		case "mk":
+			kvs := vC04ParseKVs(op[1])
+			spare, _ := strconv.Atoi(op[2])
+			b := make([]attribute.KeyValue, 0, len(kvs)+spare)
+			bufs = append(bufs, append(b, kvs...))
+		case "wr":
+			b, _ := strconv.Atoi(op[1])
+			i, _ := strconv.Atoi(op[2])
+			if s := buf(b); s != nil && i < cap(s) {
+				s[:cap(s)][i] = vC04ParseKV(op[3])
+			}
+		case "sp":
+			var so []trace.SpanStartOption
+			if op[3] != "-" {
+				var links []trace.Link
+				for _, l := range strings.Split(op[3], "+") {
+					p := strings.Split(l, "@")
+					lk := trace.Link{SpanContext: vC04ParseSC(p[0])}
+					if p[1] != "-" {
+						b, _ := strconv.Atoi(p[1])
+						lk.Attributes = buf(b)
+					}
+					links = append(links, lk)
+				}
+				so = append(so, trace.WithLinks(links...))
+			}
+			for _, b := range c10AliasIdx(op[2]) {
+				so = append(so, trace.WithAttributes(buf(b)...))
+			}
+			_, s := tr.Start(context.Background(), vUnhex(op[1]), so...)
+			proc.idx[s.SpanContext().SpanID()] = len(spans)
+			spans = append(spans, s)
+		default:
+			s := span(op[1])
+			if s == nil {
+				break
+			}
+			switch op[0] {
+			case "sa":
+				b, _ := strconv.Atoi(op[2])
+				s.SetAttributes(buf(b)...)
+			case "ev":
+				s.AddEvent(vUnhex(op[2]), evOpts(op[3])...)
+			case "re":
+				var err error
+				if op[2] != "-" {
+					err = errors.New(vUnhex(op[2]))
+				}
+				s.RecordError(err, evOpts(op[3])...)
+			case "ln":
+				lk := trace.Link{SpanContext: vC04ParseSC(op[2])}
+				if op[3] != "-" {
+					b, _ := strconv.Atoi(op[3])
+					lk.Attributes = buf(b)
+				}
+				s.AddLink(lk)
+			case "st":
+				c, _ := strconv.Atoi(op[2])
+				s.SetStatus(codes.Code(c), vUnhex(op[3]))
+			case "nm":
+				s.SetName(vUnhex(op[2]))
+			case "end":
+				s.End()
+			default:
+				panic("bad alias op " + op[0])
+			}
+		}
+		// re-read every snapshot exported so far
+		same := byte('1')
+		for i, sn := range proc.spans {
+			if vC04Dump(sn) != proc.dumps[i] {
+				same = '0'
+			}
+		}
+		flags = append(flags, same)
+	}
+	fl := "-"
+	if len(flags) > 0 {
+		fl = string(flags)
+	}
+	fin := []string{}
+	for i, sn := range proc.spans {
+		fin = append(fin, fmt.Sprintf("%d %s %s", proc.which[i], vC04B(vC04Dump(sn) == proc.dumps[i]), proc.dumps[i]))
+	}
+	if len(fin) == 0 {
+		fin = []string{"-"}
+	}
+	for _, s := range spans {
+		s.End()
+	}
+	return fl + " ## " + strings.Join(fin, " ; ")
+}
+
+func c10GenAlias(r *vRand) ([6]int, [][]string) {
+	var lim [6]int
+	for j := range lim {
+		lim[j] = vPick(r, []int{-1, -1, -1, 128, 128, 0, 1, 2, 3, 5})
+	}
+	linkWrites := os.Getenv("VERIF_C10_LINKWR") == "1" // caller writes to arrays handed to AddLink (retained by reference)
+	kv := func() string { return vHex(vC04GenKey(r, 0)) + "=" + vC04GenVal(r) }
+	var ops [][]string
+	type bufInfo struct {
+		cap      int
+		linkUsed bool
+	}
+	var bufs []bufInfo
+	mk := func() {
+		kvs := vC04GenKVs(r, 3, 0)
+		n := 0
+		if kvs != "-" {
+			n = strings.Count(kvs, ",") + 1
+		}
+		spare := vPick(r, []int{0, 0, 1, 2, 2, 4, 8})
+		ops = append(ops, []string{"mk", kvs, strconv.Itoa(spare)})
+		bufs = append(bufs, bufInfo{cap: n + spare})
+	}
+	nb := 1 + r.Intn(3)
+	for i := 0; i < nb; i++ {
+		mk()
+	}
+	pickBufs := func(max int) string {
+		n := r.Intn(max + 1)
+		if n == 0 {
+			return "-"
+		}
+		xs := make([]string, n)
+		for i := range xs {
+			xs[i] = strconv.Itoa(r.Intn(len(bufs)))
+		}
+		return strings.Join(xs, ".")
+	}
+	linkBuf := func() string {
+		if r.Intn(3) == 0 {
+			return "-"
+		}
+		b := r.Intn(len(bufs))
+		bufs[b].linkUsed = true
+		return strconv.Itoa(b)
+	}
+	nspans := 0
+	ended := map[int]bool{}
+	sp := func() {
+		links := "-"
+		if r.Intn(4) == 0 {
+			n := 1 + r.Intn(2)
+			xs := make([]string, n)
+			for i := range xs {
+				xs[i] = vC04GenSC(r) + "@" + linkBuf()
+			}
+			links = strings.Join(xs, "+")
+		}
+		ops = append(ops, []string{"sp", vHex(vValidStr(r, 2)), pickBufs(2), links})
+		nspans++
+	}
+	sp()
+	n := 4 + r.Intn(20)
+	for i := 0; i < n; i++ {
+		s := strconv.Itoa(r.Intn(nspans))
+		switch x := r.Intn(100); {
+		case x < 4 && len(bufs) < 5:
+			mk()
+		case x < 22:
+			// the caller reuses its slice: overwrite a cell (inside the length or in the spare capacity)
+			var cand []int
+			for b, bi := range bufs {
+				if bi.cap > 0 && (linkWrites || !bi.linkUsed) {
+					cand = append(cand, b)
+				}
+			}
+			if len(cand) == 0 {
+				mk()
+				break
+			}
+			b := vPick(r, cand)
+			ops = append(ops, []string{"wr", strconv.Itoa(b), strconv.Itoa(r.Intn(bufs[b].cap)), kv()})
+		case x < 30 && nspans < 4:
+			sp()
+		case x < 38:
+			ops = append(ops, []string{"sa", s, strconv.Itoa(r.Intn(len(bufs)))})
+		case x < 56:
+			ops = append(ops, []string{"ev", s, vHex(vValidStr(r, 2)), pickBufs(2)})
+		case x < 74:
+			msg := vHex(vStr(r, 3))
+			if r.Intn(10) == 0 {
+				msg = "-"
+			}
+			ops = append(ops, []string{"re", s, msg, pickBufs(2)})
+		case x < 80:
+			ops = append(ops, []string{"ln", s, vC04GenSC(r), linkBuf()})
+		case x < 84:
+			ops = append(ops, []string{"st", s, strconv.Itoa(r.Intn(3)), vHex(vStr(r, 2))})
+		case x < 87:
+			ops = append(ops, []string{"nm", s, vHex(vStr(r, 2))})
+		default:
+			ops = append(ops, []string{"end", s})
+			si, _ := strconv.Atoi(s)
+			ended[si] = true
+		}
+	}
+	return lim, ops
+}
+
+func c10AliasLine(out *vOut, gen string, lim [6]int, ops [][]string) {
+	var sb strings.Builder
+	fmt.Fprintf(&sb, "alias %s %d %d %d %d %d %d", gen, lim[0], lim[1], lim[2], lim[3], lim[4], lim[5])
+	for _, op := range ops {
+		sb.WriteString(" | ")
+		sb.WriteString(strings.Join(op, " "))
+	}
+	out.Line("%s => %s", sb.String(), c10RunAlias(lim, ops))
+}
+
+func TestVerifC10Alias(t *testing.T) {
+	out := vOpen(t)
+	defer out.Close()
+	defer c10SafeHandler()()
+	if rp := vReplayLines(); rp != nil {
+		for _, f := range rp {
+			if f[0] != "alias" || len(f) < 8 {
+				continue
+			}
+			var lim [6]int
+			for i := range lim {
+				lim[i], _ = strconv.Atoi(f[2+i])
+			}
+			c10AliasLine(out, f[1], lim, vC04Split(f[8:]))
+		}
+		return
+	}
+	r := &vRand{s: vSeed() ^ 0xa11a5}
+	n := vN(3000)
+	for i := 0; i < n; i++ {
+		lim, ops := c10GenAlias(r)
+		c10AliasLine(out, "rnd", lim, ops)
+	}
+}
